@@ -40,6 +40,9 @@ static void value_stub(V *out, const C *c, unsigned *off, unsigned len, bool str
     bool def = vf_u8() & 1; unsigned id = vf_u8();
     unsigned o = vf_u32(); vf_assume((strict ? (o > *off) : (o >= *off)) && o < 0xFFFFFF00u);
     vf_assume(def ? (o <= len && o > *off) : (o >= len));
+#ifdef STEER   /* steering: every callee result is a REAL one-digit number, so the counterexample text is real JSON material */
+    vf_assume(def && o == *off + 1 && c[*off] >= C('1') && c[*off] <= C('9'));
+#endif
     new (out) V{};
     if (def) { out->type_ = ValueType::UIntLong; out->payload_ = id; }
     vcalls[k].in = *off; vcalls[k].out = o; vcalls[k].def = def; vcalls[k].id = id; nv = k + 1;
@@ -55,6 +58,9 @@ extern "C" unsigned fn_unescape(const C *content, unsigned length, SS *stream) {
     unsigned r = vf_u32(); vf_assume(r <= length);
     unsigned sl = vf_u32(); vf_assume(sl <= 2); C f = vf_any<C>();
     if (r == 0) sl = 0;                               // on failure the scratch stream content is irrelevant; keep it empty
+#ifdef STEER   /* steering: every key is the real string  k"  */
+    vf_assume(r == 2 && sl == 0 && length >= 2 && content[0] == C('k') && content[1] == C('"'));
+#endif
     stream->len = sl; stream->buf[0] = f;
     ucalls[k].in = in; ucalls[k].n = length; ucalls[k].r = r; ucalls[k].slen = sl; ucalls[k].first = unsigned(f); nu = k + 1;
     return r;
@@ -77,6 +83,9 @@ extern "C" void h_array_fn() {     // array = ws ( ']' | value *( ws ',' ws valu
     const C *b = mkbuf(); SS stream;
     unsigned off = vf_u32(); vf_assume(off <= L); unsigned pos = off;
     V v = PR::parseArray(stream, b, off, SizeT(L));
+#ifdef STEER   /* counterexample steering only: look for a broken failure sentinel that an enclosing container would resume from */
+    vf_assume(v.IsUndefined() && off < L && (b[off] == C('}') || b[off] == C(']') || b[off] == C(',')));
+#endif
     bool ok = false; unsigned end = 0, cnt = 0, i = 0; bool shape = true;
     pos = skip_ws(b, pos);
     if (pos < L && b[pos] == C(']')) { ok = true; end = pos + 1; }
@@ -107,6 +116,9 @@ extern "C" void h_object_fn() {    // object = ws ( '}' | member *( ws ',' ws me
     const C *b = mkbuf(); SS stream;
     unsigned off = vf_u32(); vf_assume(off <= L); unsigned pos = off;
     V v = PR::parseObject(stream, b, off, SizeT(L));
+#ifdef STEER
+    vf_assume(v.IsUndefined() && off < L && (b[off] == C('}') || b[off] == C(']') || b[off] == C(',')));
+#endif
     bool ok = false; unsigned end = 0, cnt = 0, i = 0, u = 0; bool shape = true;
     unsigned klen[L + 2]; unsigned kfirst[L + 2];
     pos = skip_ws(b, pos);
